@@ -92,6 +92,19 @@ check('C05', 'specs/TxWire.tla + harness/c05_txwire.py',
       'TLA+ layout-function spec, TLC case enumeration with round-trip invariants, every state replayed against the real serialiser/parser/txid',
       'DESIGN.md 5/C05')
 
+check('C14', 'specs/Reserve.tla + specs/ReserveTrace.tla + harness/c14_reserve.py',
+      'Leg A: TLC explores Reserve.tla - 3 (4) builders, 5 outputs, two rounds per build, the FIFO reservation lock, read / select / '
+      'reserve as separate database jobs versus the sqlite strategy\'s single transaction, failure with release, broadcast or abandon - '
+      'against NoShare, HeldUnavailable, AllAvailableAtEnd and the action property SnapshotClean, with the negative control that the '
+      'model without the lock violates NoShare. Leg C: 310 (2500) schedules of 2-12 concurrent real Transaction.create calls on one real '
+      'ledger / sqlite database under the deterministic loop - every arrival point of a second build enumerated, 2-12 builders with seeded '
+      'arrival points, every coin-selection strategy, multi-round builds over coins barely worth their fee, each finished build broadcast '
+      'or abandoned after a seeded delay - are recorded (inputs of each returned transaction; is_reserved column and spent set after every '
+      'scheduler step, read by a separate connection) and validated by TLC against ReserveTrace.tla.',
+      'Trusted: AIOSQLite runs one database job at a time (so arrival points are the scheduling freedom); broadcast is modelled by storing '
+      'the transaction with its inputs as wallet sync does; sqlite transaction isolation.',
+      'TLC exhaustive model with negative control + TLC trace validation of concurrent real builds', 'DESIGN.md 5/C14')
+
 NOT_YET = 'check not built yet in this round (design in DESIGN.md section 5); will be claimed once its driver exists'
 ALL = [f'C{i:02d}' for i in range(1, 21)]
 
